@@ -138,6 +138,13 @@ EXTRA_SETS: Dict[str, Dict[str, str]] = {
         "tm_maps.proto": _P3 + "package vftwin.maps;\nmessage V { int32 x = 1; }\nmessage W { string t = 1; }\nmessage M { map<string, int32> a_b = 1; map<int64, bytes> ab = 2; "
                          "map<string, V> foo_bar = 3; map<int32, W> foobar = 4; map<bool, string> HTTP_code = 5; map<string, double> httpcode = 6; "
                          "message Inner { map<uint32, V> k_v = 1; map<string, W> kv = 2; } Inner inner = 7; }\n",
+        # user messages NAMED like the entry type protoc synthesizes for a map of the same message (LogEntry next to
+        # map<..> log), in another package and in the same package, used as repeated / singular / oneof fields there
+        "tm_entries.proto": _P3 + 'package vftwin.entries;\nimport "tm_other.proto";\nmessage LogEntry { string key = 1; int64 at = 2; }\n'
+                            "message Batch { map<string, string> log = 1; repeated vftwin.other.LogEntry entries = 2; repeated .vftwin.entries.LogEntry own = 3; "
+                            "vftwin.other.LogEntry one = 4; oneof pick { vftwin.other.LogEntry picked = 5; int32 none = 6; } map<int32, vftwin.other.LogEntry> by_id = 7; }\n"
+                            "message NoMap { repeated vftwin.other.LogEntry entries = 1; }\n",
+        "tm_other.proto": _P3 + "package vftwin.other;\nmessage LogEntry { string key = 1; bytes value = 2; repeated int32 n = 3; }\n",
     },
     # valid proto3 constructs that carry no fields of their own but that a plugin reads past: custom options declared with
     # `extend google.protobuf.*Options` at file level and inside a message (and used on files, messages, fields, oneofs,
